@@ -127,6 +127,8 @@ def main():
                         elif kind == 'list':
                             vals = [7 * k + 1 for k in range(D)]
                             kw = {'n_features': 2, 'n_samples': ns, 'cardinality': 2, 'structure': [[[0, 1], vals]], 'ensure_rep': ens, 'seed': sd}
+                            if rng.random() < 0.5:
+                                kw.update(random_values=True, low=100, high=1000)      # an explicit value list stays the domain also when the OTHER features draw random domains
                             cols = [{'domain': vals}] * 2
                         else:
                             lo_, hi_ = rng.choice([(10, 10 + 3 * D), (-60, 0), (-3 * D, -1), (0, 3 * D), (-D, D)])       # bounds at and across zero
